@@ -434,6 +434,218 @@ example :
       [[66], [120, 45, 65]]).map (·.values) = [[[57]], [[49]], [[48]], [[50]], [[51]]] := by decide
 
 
+/-! ### value order within a name on HTTP/3 (was lane-judged only) -/
+
+theorem headerGroups_h3_key (x g : KV) (hg : g ∈ headerGroups .h3 [x]) : g.key = x.key := by
+  unfold headerGroups at hg
+  simp only [List.flatMap_cons, List.flatMap_nil, List.append_nil] at hg
+  split at hg
+  · simp at hg
+  · split at hg
+    · split at hg
+      · simp at hg
+      · split at hg
+        · simp at hg
+        · simp at hg; subst hg; rfl
+    · split at hg
+      · rename_i h; simp at h
+      · simp at hg
+        obtain ⟨v, _, rfl⟩ := hg
+        rfl
+
+theorem headerGroups_h3_cons (x : KV) (xs : Hdr) :
+    headerGroups .h3 (x :: xs) = headerGroups .h3 [x] ++ headerGroups .h3 xs := by
+  simp [headerGroups]
+
+theorem headerGroups_h3_other (n : Bytes) (x : KV) (hx : (lower x.key == n) = false) :
+    (headerGroups .h3 [x]).filter (fun g => lower g.key == n) = [] := by
+  apply List.filter_eq_nil_iff.mpr
+  intro g hg
+  rw [headerGroups_h3_key x g hg]; simp [hx]
+
+theorem headerGroups_h3_none (n : Bytes) (xs : Hdr) (hall : ∀ y ∈ xs, (lower y.key == n) = false) :
+    (headerGroups .h3 xs).filter (fun g => lower g.key == n) = [] := by
+  induction xs with
+  | nil => rfl
+  | cons y ys ih =>
+    rw [headerGroups_h3_cons, List.filter_append,
+      headerGroups_h3_other n y (hall y (List.mem_cons_self ..)),
+      ih (fun z hz => hall z (List.mem_cons_of_mem _ hz))]
+    rfl
+
+/-- on HTTP/3 a key with an ordinary name becomes one group per value, in the caller's order. -/
+theorem headerGroups_h3_self (n : Bytes) (hn : ordinary n = true) (kv : KV) (hk : lower kv.key = n) :
+    (headerGroups .h3 [kv]).filter (fun g => lower g.key == n) = kv.values.map fun v => ⟨kv.key, [v]⟩ := by
+  have hsp : special.contains (lower kv.key) = false := by
+    rw [hk]; simp only [ordinary, Bool.and_eq_true, Bool.not_eq_true'] at hn; exact hn.1
+  have hex : isExcluded kv.key = false := by
+    cases hb : isExcluded kv.key with
+    | false => rfl
+    | true => rw [isExcluded_special hb] at hsp; exact absurd hsp (by decide)
+  have hua : equalFold kv.key sUserAgentL = false := by
+    cases hb : equalFold kv.key sUserAgentL with
+    | false => rfl
+    | true => rw [equalFold_lower hb (by decide)] at hsp; exact absurd hsp (by decide)
+  have hg : headerGroups .h3 [kv] = kv.values.map fun v => ⟨kv.key, [v]⟩ := by
+    unfold headerGroups
+    simp [hex, hua]
+  rw [hg]
+  apply List.filter_eq_self.mpr
+  intro g hgm
+  obtain ⟨v, _, rfl⟩ := List.mem_map.mp hgm
+  simp [hk]
+
+theorem headerGroups_h3_filter (n : Bytes) (hn : ordinary n = true) (kv : KV) :
+    ∀ (h : Hdr), (h.map (·.key)).Nodup → kv ∈ h → lower kv.key = n →
+      (∀ kv' ∈ h, lower kv'.key = n → kv' = kv) →
+      (headerGroups .h3 h).filter (fun g => lower g.key == n) = kv.values.map fun v => ⟨kv.key, [v]⟩ := by
+  intro h
+  induction h with
+  | nil => intro _ hm; simp at hm
+  | cons x xs ih =>
+    intro hnd hm hk huniq
+    simp only [List.map_cons, List.nodup_cons] at hnd
+    rw [headerGroups_h3_cons, List.filter_append]
+    rcases List.mem_cons.mp hm with he | hin
+    · subst he
+      rw [headerGroups_h3_self n hn kv hk]
+      have hall : ∀ y ∈ xs, (lower y.key == n) = false := by
+        intro y hy
+        cases hb : lower y.key == n with
+        | false => rfl
+        | true =>
+          have hy2 : y = kv := huniq y (List.mem_cons_of_mem _ hy) (by simpa using hb)
+          exact absurd (hy2 ▸ List.mem_map_of_mem (f := (·.key)) hy) hnd.1
+      rw [headerGroups_h3_none n xs hall]
+      simp
+    · have hx : (lower x.key == n) = false := by
+        cases hb : lower x.key == n with
+        | false => rfl
+        | true =>
+          have hx2 : x = kv := huniq x (List.mem_cons_self ..) (by simpa using hb)
+          exact absurd (hx2 ▸ List.mem_map_of_mem (f := (·.key)) hin) hnd.1
+      rw [headerGroups_h3_other n x hx,
+        ih hnd.2 hin hk (fun kv' hkv' => huniq kv' (List.mem_cons_of_mem _ hkv'))]
+      rfl
+
+theorem mem_headerGroups_h3 (h : Hdr) (g : KV) (hg : g ∈ headerGroups .h3 h) : ∃ x ∈ h, g.key = x.key := by
+  induction h with
+  | nil => simp [headerGroups] at hg
+  | cons x xs ih =>
+    rw [headerGroups_h3_cons] at hg
+    rcases List.mem_append.mp hg with hg | hg
+    · exact ⟨x, List.mem_cons_self .., headerGroups_h3_key x g hg⟩
+    · obtain ⟨y, hy, hk⟩ := ih hg
+      exact ⟨y, List.mem_cons_of_mem _ hy, hk⟩
+
+theorem basePseudo_filter_none (fl : Flavor) (r : FReq) (host path n : Bytes) (hn : ordinary n = true) :
+    (basePseudo fl r host path).filter (fun g => lower g.key == n) = [] := by
+  apply List.filter_eq_nil_iff.mpr
+  intro g hg hgn
+  have hcolon : g.key.head? = some 58 := by
+    unfold basePseudo at hg
+    simp only [List.mem_append, List.mem_cons] at hg
+    rcases hg with (hg | hg | hg) | hg
+    · subst hg; rfl
+    · subst hg; rfl
+    · simp at hg
+    · split at hg
+      · simp at hg
+      · simp at hg
+        rcases hg with hg | hg <;> (subst hg; rfl)
+  have hl : (lower g.key).head? = some 58 := by
+    cases hgk : g.key with
+    | nil => rw [hgk] at hcolon; simp at hcolon
+    | cons c t =>
+      rw [hgk] at hcolon
+      have : c = 58 := by simpa using hcolon
+      subst this; rfl
+  have : lower g.key = n := by simpa using hgn
+  rw [this] at hl
+  simp [ordinary, hl] at hn
+
+theorem ownFieldsH23_filter_none (fl : Flavor) (r : FReq) (n : Bytes) (hn : ordinary n = true) :
+    (ownFieldsH23 fl r).filter (fun g => lower g.key == n) = [] := by
+  apply List.filter_eq_nil_iff.mpr
+  intro g hg
+  unfold ownFieldsH23 at hg
+  simp only [List.mem_append] at hg
+  have hsp : special.contains (lower g.key) = true := by
+    rcases hg with (hg | hg) | hg
+    · rw [mem_ite_l hg]; exact (by decide : special.contains (lower sContentLengthL) = true)
+    · rw [mem_ite_l hg]; exact (by decide : special.contains (lower sAcceptEncodingL) = true)
+    · rw [mem_ite_r hg]; exact (by decide : special.contains (lower sUserAgentL) = true)
+  simp [ordinary_not_special hn hsp]
+
+theorem wireOf_singletons (k : Bytes) (vs : List Bytes) :
+    wireOf (vs.map fun v => (⟨k, [v]⟩ : KV)) = vs.map fun v => (lower k, v) := by
+  induction vs with
+  | nil => rfl
+  | cons v vs ih =>
+    have e : ∀ (x : KV) (t : List KV), wireOf (x :: t) = wireOf [x] ++ wireOf t := by
+      intro x t; simp [wireOf]
+    rw [List.map_cons, e, ih]
+    simp [wireOf]
+
+/-- **Multi-valued headers on HTTP/3** (every value is its own key/value group there): for a key
+with an ordinary name that has a single spelling in the header map, the fields of that name in the
+header block are — in arrival order — the caller's values in the caller's order, whatever the two
+order lists do (the sort never swaps two fields of one name: `isort_filter_same_idx`). -/
+theorem value_order_h3 (r : FReq) (fs : List (Bytes × Bytes)) (h : fields .h3 r = .ok fs)
+    (kv : KV) (n : Bytes) (hn : ordinary n = true) (hnd : (r.header.map (·.key)).Nodup)
+    (hm : kv ∈ r.header) (hk : lower kv.key = n)
+    (huniq : ∀ kv' ∈ r.header, lower kv'.key = n → kv' = kv) :
+    fs.filter (fun f => f.1 == n) = kv.values.map fun v => (n, v) := by
+  obtain ⟨host, path, rfl⟩ := fields_eq .h3 r fs h
+  rw [filter_wireOf_name, List.filter_append]
+  have hps : (pseudoKVs .h3 r host path).filter (fun g => lower g.key == n) = [] := by
+    have hp := (pseudo_order .h3 r host path).1.filter (fun g => lower g.key == n)
+    rw [basePseudo_filter_none .h3 r host path n hn] at hp
+    exact hp.eq_nil
+  have hbase : (baseRegular .h3 r).filter (fun g => lower g.key == n) =
+      kv.values.map fun v => (⟨kv.key, [v]⟩ : KV) := by
+    rw [baseRegular_eq, List.filter_append, headerGroups_h3_filter n hn kv r.header hnd hm hk huniq,
+      ownFieldsH23_filter_none .h3 r n hn, List.append_nil]
+  have hmem : ∀ g ∈ baseRegular .h3 r, (lower g.key == n) = true → g.key = kv.key := by
+    intro g hg hgn
+    rw [baseRegular_eq] at hg
+    rcases List.mem_append.mp hg with hg | hg
+    · obtain ⟨x, hx, hkx⟩ := mem_headerGroups_h3 r.header g hg
+      have : lower x.key = n := by rw [← hkx]; simpa using hgn
+      rw [hkx, huniq x hx this]
+    · have := ownFieldsH23_filter_none .h3 r n hn
+      rw [List.filter_eq_nil_iff] at this
+      exact absurd hgn (this g hg)
+  have hreg : (regularKVs .h3 r).filter (fun g => lower g.key == n) =
+      (baseRegular .h3 r).filter (fun g => lower g.key == n) := by
+    unfold regularKVs
+    simp only
+    split
+    · rfl
+    · rename_i hord
+      have hcongr : ∀ m : List KV, (∀ g ∈ m, g ∈ baseRegular .h3 r) →
+          m.filter (fun g => lower g.key == n) =
+          m.filter (fun g => (lower g.key == n) &&
+            (lastIndex (orderList r.header) g.key == lastIndex (orderList r.header) kv.key)) := by
+        intro m hsub
+        apply List.filter_congr
+        intro g hg
+        cases hgn : lower g.key == n with
+        | false => simp
+        | true => simp [hmem g (hsub g hg) hgn]
+      rw [hcongr _ (fun g hg => (sort_perm _ _).mem_iff.mp hg), hcongr _ (fun g hg => hg)]
+      exact isort_filter_same_idx _ _ _ _
+  rw [hps, hreg, hbase, List.nil_append, wireOf_singletons, hk]
+
+/-- non-vacuity: `X-M: 3, 1, 2` on HTTP/3 with an order list naming it: 3, 1, 2 on the wire. -/
+example :
+    ((fields .h3 { method := [71, 69, 84], url := { scheme := [104], host := [104], path := [47] }, header :=
+        [⟨[88, 45, 77], [[51], [49], [50]]⟩, ⟨[88, 45, 65], [[57]]⟩,
+         ⟨headerOrderKey, [[120, 45, 97], [120, 45, 109]]⟩] }).toOption.map
+      (·.filter (fun f => f.1 == [120, 45, 109]))) =
+      some [([120, 45, 109], [51]), ([120, 45, 109], [49]), ([120, 45, 109], [50])] := by decide
+
+
 /-! ## 2. transparent re-sends -/
 
 /-! ### sanitising a value twice = sanitising it once -/
